@@ -6,8 +6,8 @@ one of these Python fragments changes the generated file and breaks a proof.
 Translated:
   utils.nunpack                                   -> nunpack (byte order, default parameter)
   PDFXRefStream.get_pos      f1/f2/f3 decoding    -> typeDefault, field2Default, field3Default, entryOfRow
-  PDFXRefStream.get_objids   `f1 == 1 or f1 == 2` -> inUseType
-  PDFXRefStream.load         Index default        -> defaultIndex
+  PDFXRefStream.get_objids   `f1 == 1 or f1 == 2`, `offset >= len(self.data)` guard -> inUseType, rowInData
+  PDFXRefStream.load         Index default, /W arity, zero-length rows -> defaultIndex, widthsArity, zeroLengthRows
   PDFXRef.load               b"trailer", field counts 2 / 3, b"n" -> kwTrailer, headerFields, entryFields, inUseMarker
   PDFDocument.find_xref      b"startxref"         -> kwStartxref
   PDFDocument._getobj_objstm `i = n * 2 + index`  -> objstmIndex
@@ -159,9 +159,20 @@ def gen_get_objids(doc: ast.Module) -> List[str]:
         raise P.Untranslatable("get_objids: one nunpack call")
     d = nunpack_default_arg(calls[0])
     ifs = [i for i in walk_type(fn, ast.If)]
-    if len(ifs) != 1:
-        raise P.Untranslatable("get_objids: one if")
-    t = ifs[0].test
+    # (1) the guard `if offset >= len(self.data): return` (an /Index promising more rows than the data holds)
+    # (2) the in-use test `if f1 == .. or f1 == ..: yield`
+    guards = [i for i in ifs if isinstance(i.test, ast.Compare) and is_name(i.test.left, "offset")]
+    tests = [i for i in ifs if i not in guards]
+    if len(guards) != 1 or len(tests) != 1:
+        raise P.Untranslatable("get_objids: expected one `offset` guard and one in-use test")
+    g = guards[0]
+    c = g.test.comparators[0]
+    ok = (len(g.test.ops) == 1 and isinstance(g.test.ops[0], ast.GtE) and isinstance(c, ast.Call) and is_name(c.func, "len")
+          and isinstance(c.args[0], ast.Attribute) and c.args[0].attr == "data" and is_name(c.args[0].value, "self")
+          and len(g.body) == 1 and isinstance(g.body[0], ast.Return) and g.body[0].value is None and not g.orelse)
+    if not ok:
+        raise P.Untranslatable("get_objids: guard is not `if offset >= len(self.data): return`")
+    t = tests[0].test
     vals = []
     parts = t.values if isinstance(t, ast.BoolOp) and isinstance(t.op, ast.Or) else [t]
     for p in parts:
@@ -171,21 +182,47 @@ def gen_get_objids(doc: ast.Module) -> List[str]:
         vals.append(const_int(p.comparators[0]))
     return [f"/-- default of `f1` in `PDFXRefStream.get_objids` -/\ndef objidsTypeDefault : Nat := "
             + (str(d) if d is not None else "nunpackDefault") + "\n\n",
+            "/-- `if offset >= len(self.data): return` of `PDFXRefStream.get_objids`, negated: the row is read -/\n"
+            "def rowInData (offset len : Nat) : Bool := !(decide (offset ≥ len))\n\n",
             "/-- `if f1 == … or f1 == …` of `PDFXRefStream.get_objids` -/\n"
             "def inUseType (t : Nat) : Bool := " + " || ".join(f"t == {v}" for v in vals) + "\n\n"]
 
 
 def gen_load(doc: ast.Module) -> List[str]:
     fn = P.find_function(doc, "PDFXRefStream.load")
+    out = None
     for c in walk_type(fn, ast.Call):
         if isinstance(c.func, ast.Attribute) and c.func.attr == "get" and c.args and isinstance(c.args[0], ast.Constant) \
                 and c.args[0].value == "Index":
             if len(c.args) != 2 or not isinstance(c.args[1], ast.Tuple):
                 raise P.Untranslatable("Index default shape")
             els = [nat_expr(x, ["size"]) for x in c.args[1].elts]
-            return ["/-- `stream.get(\"Index\", (…))` default of `PDFXRefStream.load` -/\n"
-                    f"def defaultIndex (size : Nat) : List Nat := [{', '.join(els)}]\n\n"]
-    raise P.Untranslatable("PDFXRefStream.load: Index default not found")
+            out = ["/-- `stream.get(\"Index\", (…))` default of `PDFXRefStream.load` -/\n"
+                   f"def defaultIndex (size : Nat) : List Nat := [{', '.join(els)}]\n\n"]
+    if out is None:
+        raise P.Untranslatable("PDFXRefStream.load: Index default not found")
+    # `if len(widths) != 3 or …: raise PDFNoValidXRef` and `if self.fl1 + self.fl2 + self.fl3 == 0: raise PDFNoValidXRef`
+    arity = None
+    zero = False
+    for i in walk_type(fn, ast.If):
+        raises = len(i.body) == 1 and isinstance(i.body[0], ast.Raise) and isinstance(i.body[0].exc, ast.Call) \
+            and is_name(i.body[0].exc.func, "PDFNoValidXRef")
+        if not raises:
+            continue
+        for cmp_ in walk_type(i.test, ast.Compare):
+            if isinstance(cmp_.left, ast.Call) and is_name(cmp_.left.func, "len") and is_name(cmp_.left.args[0], "widths") \
+                    and isinstance(cmp_.ops[0], ast.NotEq) and const_int(cmp_.comparators[0]) is not None:
+                arity = const_int(cmp_.comparators[0])
+            if isinstance(cmp_.left, ast.BinOp) and isinstance(cmp_.ops[0], ast.Eq) and const_int(cmp_.comparators[0]) == 0:
+                names = sorted(a.attr for a in walk_type(cmp_.left, ast.Attribute))
+                if names == ["fl1", "fl2", "fl3"] and all(isinstance(b.op, ast.Add) for b in walk_type(cmp_.left, ast.BinOp)):
+                    zero = True
+    if arity is None or not zero:
+        raise P.Untranslatable("PDFXRefStream.load: /W arity check or zero-length check not found")
+    out.append(f"/-- `len(widths) != {arity}` → PDFNoValidXRef -/\ndef widthsArity : Nat := {arity}\n\n")
+    out.append("/-- `if self.fl1 + self.fl2 + self.fl3 == 0: raise PDFNoValidXRef` -/\n"
+               "def zeroLengthRows (fl1 fl2 fl3 : Nat) : Bool := fl1 + fl2 + fl3 == 0\n\n")
+    return out
 
 
 def bytes_consts(fn: ast.AST) -> List[bytes]:
